@@ -495,6 +495,11 @@ theorem other_layer_invisible (P : Params V) (T : Tables) (f : Font V) (l : Lay)
     ((fstep P T f l hop).1.get l.other).w.caches = (f.get l.other).w.caches ∧
     ((fstep P T f l hop).1.get l.other).holds = (f.get l.other).holds ∧
     ((fstep P T f l hop).1.get l.other).queue = (f.get l.other).queue := by
+  have hsync : ∀ (g : Font V), ((g.sync).get l.other).w.glyphs = (g.get l.other).w.glyphs ∧
+      ((g.sync).get l.other).w.caches = (g.get l.other).w.caches ∧
+      ((g.sync).get l.other).holds = (g.get l.other).holds ∧
+      ((g.sync).get l.other).queue = (g.get l.other).queue := by
+    intro g; cases l <;> exact ⟨rfl, rfl, rfl, rfl⟩
   have hset : ∀ (g : Font V) (hw : HWorld V), (g.set l hw).get l.other = g.get l.other := by
     intro g hw; cases l <;> rfl
   have hset2 : ∀ (g : Font V) (hw : HWorld V), (g.set l.other hw).get l.other = hw := by
@@ -528,14 +533,35 @@ theorem other_layer_invisible (P : Params V) (T : Tables) (f : Font V) (l : Lay)
   | base op =>
     by_cases hreg : ∃ cls name, op = .register cls name
     · obtain ⟨cls, name, rfl⟩ := hreg
-      cases l <;> simp only [fstep, hstep, step, Font.get, Lay.other] <;> split <;> exact ⟨rfl, rfl, rfl, rfl⟩
-    · have : (fstep P T f l (.base op)).1 = (migrate f l op).set l (hstep P T ((migrate f l op).get l) (.base op)).1 := by
+      have hs := hsync { l0 := (hstep P T f.l0 (.base (.register cls name))).1, l1 := (hstep P T f.l1 (.base (.register cls name))).1 }
+      have e : (fstep P T f l (.base (.register cls name))).1 =
+          Font.sync { l0 := (hstep P T f.l0 (.base (.register cls name))).1, l1 := (hstep P T f.l1 (.base (.register cls name))).1 } := rfl
+      rw [e]
+      obtain ⟨h1, h2, h3, h4⟩ := hs
+      rw [h1, h2, h3, h4]
+      cases l <;> simp only [hstep, step, Font.get, Lay.other] <;> split <;> exact ⟨rfl, rfl, rfl, rfl⟩
+    · have : (fstep P T f l (.base op)).1 =
+          ((migrate f l op).set l (hstep P T ((migrate f l op).get l) (.base op)).1).sync := by
         cases op <;> first | rfl | exact absurd ⟨_, _, rfl⟩ hreg
-      rw [this, hset]; exact hmig op
-  | hold o => simp only [fstep]; rw [hset]; exact ⟨rfl, rfl, rfl, rfl⟩
-  | release o => simp only [fstep]; rw [hset]; exact ⟨rfl, rfl, rfl, rfl⟩
-  | disable o => simp only [fstep]; rw [hset]; exact ⟨rfl, rfl, rfl, rfl⟩
-  | enable o => simp only [fstep]; rw [hset]; exact ⟨rfl, rfl, rfl, rfl⟩
+      rw [this]
+      obtain ⟨h1, h2, h3, h4⟩ := hsync ((migrate f l op).set l (hstep P T ((migrate f l op).get l) (.base op)).1)
+      rw [h1, h2, h3, h4, hset]; exact hmig op
+  | hold o =>
+    simp only [fstep]
+    obtain ⟨h1, h2, h3, h4⟩ := hsync (f.set l (hstep P T (f.get l) (.hold o)).1)
+    rw [h1, h2, h3, h4, hset]; exact ⟨rfl, rfl, rfl, rfl⟩
+  | release o =>
+    simp only [fstep]
+    obtain ⟨h1, h2, h3, h4⟩ := hsync (f.set l (hstep P T (f.get l) (.release o)).1)
+    rw [h1, h2, h3, h4, hset]; exact ⟨rfl, rfl, rfl, rfl⟩
+  | disable o =>
+    simp only [fstep]
+    obtain ⟨h1, h2, h3, h4⟩ := hsync (f.set l (hstep P T (f.get l) (.disable o)).1)
+    rw [h1, h2, h3, h4, hset]; exact ⟨rfl, rfl, rfl, rfl⟩
+  | enable o =>
+    simp only [fstep]
+    obtain ⟨h1, h2, h3, h4⟩ := hsync (f.set l (hstep P T (f.get l) (.enable o)).1)
+    rw [h1, h2, h3, h4, hset]; exact ⟨rfl, rfl, rfl, rfl⟩
 
 def layOps : List (Lay × HOp) :=
   [(.a, .base (.newGlyph "A")), (.a, .base (.mkComp 1 (some "X"))), (.a, .base (.insComp "A" 1 0)),
